@@ -12,6 +12,9 @@
     handoff <idle> <read> <readHeader> <write> <mitmHandshake> <hold>   (ms; 0 = not set)
                                       → alive | dead   (is an h2 connection still read `hold` ms after the CONNECT response, `H2.connectThenMITM`)
 
+    hlist <debug 0|1> <list>          → <list>   (the header list a receiving endpoint decodes for a list the relay decoded when
+                                        `EnableDebugLogs = debug`, `H2.relayList`; list = `~` or name:value:sensitive,… in hex, `_` = empty)
+
   step   = <op>/<fwdQ>/<fwdD>/<backQ>/<backD>
   op     = side,kind,args…            side = c | s
            data,sid,len,pad(- or n),es        hdr,sid,es,eh,dep,excl,weight,fragLen,reencLen,list
@@ -26,6 +29,7 @@
 import FwdVerif.Model.H2Check
 import FwdVerif.Model.H2Handoff
 import FwdVerif.Model.H2TableCap
+import FwdVerif.Model.H2Headers
 
 namespace FwdVerif
 namespace H2
@@ -160,6 +164,11 @@ def handle : List String → String
       match ((Relay.runSized cf (Relay.startCap cf false false) es).2.map fun x => x.2.2.fatal).idxOf? true with
       | none => "ok"
       | some i => s!"refused {i}"
+    | _, _ => "bad-op"
+  | ["hlist", debug, list] =>
+    -- the list a receiving endpoint decodes for a list the relay decoded, under `EnableDebugLogs = debug`
+    match boolOf debug, parseHList list with
+    | some dbg, some hs => renderHList (relayList { debugLogs := dbg } hs)
     | _, _ => "bad-op"
   | ["handoff", idle, read, rh, write, mitm, hold] =>
     match natOf idle, natOf read, natOf rh, natOf write, natOf mitm, natOf hold with
